@@ -77,7 +77,31 @@ def prune_cache(keep):
         shutil.rmtree(d, ignore_errors=True)
 
 
+class FileLock:
+    """inter-process lock (several checks may run at the same time on a tree that needs rebuilding)"""
+
+    def __init__(self, name):
+        os.makedirs(CACHE, exist_ok=True)
+        self.path = os.path.join(CACHE, name + ".lock")
+
+    def __enter__(self):
+        import fcntl
+        self.fh = open(self.path, "w")
+        fcntl.flock(self.fh, fcntl.LOCK_EX)
+        return self
+
+    def __exit__(self, *a):
+        import fcntl
+        fcntl.flock(self.fh, fcntl.LOCK_UN)
+        self.fh.close()
+
+
 def build_native():
+    with FileLock("native"):
+        return _build_native()
+
+
+def _build_native():
     """harness + Multitensor CLI from /repo's working tree, guard on, sanitizers on.
     Cached by content hash of the sources and of the harness."""
     hsrc = os.path.join(VERIF, "harness", "harness.cpp")
@@ -128,7 +152,8 @@ def build_native():
 
 def generate():
     """run the translator; returns list of lost anchors [(name, why)]"""
-    r = run([sys.executable, os.path.join(VERIF, "tools", "gen_from_source.py")])
+    with FileLock("lean"):
+        r = run([sys.executable, os.path.join(VERIF, "tools", "gen_from_source.py")])
     lost = []
     for line in r.stdout.splitlines():
         m = re.match(r"LOST-ANCHOR (.*?): (.*)", line)
@@ -141,7 +166,8 @@ def generate():
 
 def lake_build(targets):
     """returns (ok, output)"""
-    r = run(["lake", "build"] + list(targets), cwd=LEAN)
+    with FileLock("lean"):
+        r = run(["lake", "build"] + list(targets), cwd=LEAN)
     return r.returncode == 0, r.stdout
 
 
